@@ -35,6 +35,7 @@ var (
 		"--no-ext-diff",
 		"--no-textconv",
 		"--color=never",
+		"--src-prefix=a/", "--dst-prefix=b/", // the parser relies on the default prefixes (diff.noprefix, diff.mnemonicPrefix)
 		"--text",            // pointers are text even when the path is marked binary or -diff
 		"-G", "oid sha256:", // only diffs which include an lfs file SHA change
 		"-p",                             // include diff so we can read the SHA
